@@ -13,6 +13,7 @@ CONSTANTS
   SeekOffs <- Offs2
   TW = 8
   TH = 6
+  Terms <- TermsNone
   MaxDepth = 5
 CONSTRAINT Bound
 VIEW View
@@ -24,6 +25,7 @@ PROPERTY SeekNoLoop
 PROPERTY RejectedChangesNothing
 PROPERTY SettingsOnlyBySetter
 PROPERTY FrameMatchesSettings
+PROPERTY ResizeAloneChangesNothing
 PROPERTY NoRerender
 PROPERTY ClosedIsTerminal
 PROPERTY LoopCountdown
